@@ -67,6 +67,19 @@ def main():
     if aud['forbidden']:
         discharged = 0
 
+    # 3b. thorough tier: independent re-check of the compiled proofs with leanchecker
+    leanchecker = None
+    if args.tier == 'thorough' and good_modules:
+        import subprocess
+        try:
+            p = subprocess.run(['lake', 'env', 'leanchecker'] + good_modules, cwd=common.LEAN, stdout=subprocess.PIPE,
+                               stderr=subprocess.STDOUT, text=True, timeout=3000)
+            leanchecker = dict(rc=p.returncode, modules=good_modules, out=p.stdout[-500:])
+            if p.returncode != 0:
+                broken.append('leanchecker rejected %s: %s' % (good_modules, p.stdout[-300:]))
+        except Exception as e:  # noqa
+            leanchecker = dict(rc=None, error=repr(e))
+
     # 4. correspondence + oracle on the real code
     env = dict(tier=args.tier, seed=seed, driver=None, replay=args.replay, broken=list(broken), gen=gen_info)
     res = common.Result()
@@ -140,15 +153,17 @@ def main():
         theorems={n: ax for n, ax in aud['theorems'].items()},
         evaluations=res.evaluations, distinct_nontrivial=len(res.distinct), rule=res.rule,
         samples=res.samples or ['(none)'], traces_validated_against_impl=res.traces,
-        broken_obligations=broken, known_findings_hit=sorted(known_hit),
+        broken_obligations=broken, known_findings_hit=sorted(known_hit), leanchecker=leanchecker,
     )
     cov.update(res.extra)
     cov.update({('gen_' + k): v for k, v in gen_info.items()})
     ev = dict(property_id=pid, tier=args.tier, seed=seed, level='proof', coverage=cov,
               assumptions=list(getattr(mod, 'ASSUMPTIONS', [])) + res.assumptions,
               wall_s=round(time.time() - t0, 2), violations=len(violations) + (1 if broken and not violations else 0))
-    os.makedirs(os.path.join(common.ROOT, 'evidence'), exist_ok=True)
-    json.dump(ev, open(os.path.join(common.ROOT, 'evidence', pid + '.json'), 'w'), indent=1, default=repr)
+    # runs against a scratch checkout (YAQL_REPO) must not overwrite the evidence of /repo
+    evdir = os.path.join(common.ROOT, 'evidence') if common.REPO == '/repo' else os.path.join(common.ROOT, 'replays', 'scratch-evidence')
+    os.makedirs(evdir, exist_ok=True)
+    json.dump(ev, open(os.path.join(evdir, pid + '.json'), 'w'), indent=1, default=repr)
 
     dirty_after = common.repo_dirty()
     if dirty_after != dirty_before:
